@@ -32,6 +32,8 @@ THEOREMS = [
     "Nix.C03.order_after_delete",
     "Nix.C03.link_append_last",
     "Nix.C03.link_unlink_keeps_rest",
+    "Nix.C03.legal_name_accepted_block",
+    "Nix.C03.legal_name_accepted_partial",
     "Nix.C03.demo_reachable",
 ]
 ASSUMPTIONS = [
